@@ -141,7 +141,7 @@ CONF = {
  },
  "C13": {
   "level": "model_checking",
-  "rule": "(seq) explicit-state BFS over announce / re-announce / withdraw histories (3 services x 3 addresses x 3 interface scopes) on the real Announce: use counts, responder decisions for every address x interface and gratuitous emissions on two in-memory ARP responders checked after every operation; (pkt) every ARP operation code 0..10 x Ethernet destination x target (held+covered, held+uncovered, not held) x malformed frames through the real processRequest; (conc) every interleaving with <=2/3 preemptions of a writer thread, a request thread and the spam-loop effect over 6 scenarios under the controlled scheduler, single-writer linearizability oracle; plus a free-running -race pass of the same bodies",
+  "rule": "(seq) explicit-state BFS over announce / re-announce / withdraw histories (3 services x 3 addresses x 3 interface scopes) on the real Announce: use counts, responder decisions for every address x interface and gratuitous emissions on two in-memory ARP responders checked after every operation; (pkt) every ARP operation code 0..10 x Ethernet destination x target (held+covered, held+uncovered, not held) x malformed frames through the real processRequest; (conc) every interleaving with <=2/3 preemptions of a writer thread, a request thread and the spam-loop effect over 6 scenarios under the controlled scheduler, single-writer linearizability oracle; plus a free-running -race pass of the same bodies; (ndp-pkt) the real ndpResponder.processRequest over an in-memory connection: every neighbor-discovery message type x every option sequence of length <=3 over {source link-layer address, target link-layer address, nonce, second source link-layer address} x target (held+covered, held on the other interface, not held, not held but in the solicited-node group of a held address) x announcer state (base, one of two sharers withdrawn, last holder withdrawn, re-announced) x source x interface x every truncation point, decoded by an independent Neighbor Advertisement decoder; and explicit-state BFS to a fixpoint over IPv6 announce/withdraw histories checking group membership, answers and unsolicited advertisements on two in-memory NDP connections",
   "parts": [{"name": "main", "pkg": "internal/layer2", "test": "TestVerif_C13", "shards": {"quick": 16, "thorough": 16}, "budget_s": {"quick": 100, "thorough": 1500}, "gomaxprocs": 1},
             {"name": "race", "pkg": "internal/layer2", "test": "TestVerif_C13race", "shards": 1, "race": True, "rewrites": {"go": ["internal/layer2/announcer.go"]}},
             {"name": "ndp-groups", "pkg": "internal/layer2", "test": "TestVerif_C13ndp", "shards": 1, "free": True, "rewrites": {"go": ["internal/layer2/announcer.go"]}},
@@ -149,7 +149,7 @@ CONF = {
             {"name": "ndp-pkt", "pkg": "internal/layer2", "test": "TestVerif_C13ndppkt", "shards": 8, "gomaxprocs": 1,
              "rewrites": {"go": ["internal/layer2/announcer.go"], "calls": NDP_CALLS}}],
   "rewrites": {"sync": ["internal/layer2/announcer.go"], "go": ["internal/layer2/announcer.go"], "map": ["internal/layer2/announcer.go"], "chan": ["internal/layer2/announcer.go"]},
-  "assumptions": ["the NDP packet path is not covered; the NDP decision is the same shouldAnnounce and is covered for the IPv6 address; solicited-node multicast membership is covered by the ndp-groups part where an ICMPv6 listener can be opened on a local interface (the part reports when it had to be skipped)",
+  "assumptions": ["NDP packet path: ndp.Conn's four methods used by the responder (ReadFrom, WriteTo, JoinGroup, LeaveGroup) are redirected to an in-memory connection (R-call rewrite of ndp.go); frames are parsed by the library's own ParseMessage as Conn.ReadFrom does; a solicitation without source link-layer address option is not required to be answered (MetalLB drops it; the statement is silent); the kernel's view of solicited-node multicast membership is covered by the ndp-groups part where an ICMPv6 listener can be opened on a local interface (the part reports when it had to be skipped)",
                   "background interface scan and spam loop suppressed; the spam loop's effect (gratuitous of a queued advertisement) is delivered by the harness",
                   "race pass: 200 free-running iterations of the concurrent bodies compiled with -race (the only non-enumerative component)"],
  },
